@@ -390,14 +390,21 @@ func (run *c29Run) maybeStop() {
 	})
 }
 
-func TestVerifC29(t *testing.T) {
-	r := verifkit.Start(t, "C29", "main")
+// c29PortsHook, when set by a unit, wraps the model into the ports handed to
+// the Group (the "adapter" unit routes them through the real
+// internal/infra/cluster adapters).
+var c29PortsHook func(*c29Model) (ca.Appender, ca.IdempotencyStore)
+
+func TestVerifC29(t *testing.T) { c29Main(t, "main", 110, 1000) }
+
+func c29Main(t *testing.T, unit string, quick, thorough int) {
+	r := verifkit.Start(t, "C29", unit)
 	defer r.Finish()
 	r.SetRule("One case = one fresh channelappend.Group (+Router in router mode) over a sequential-log store model; config (mode, 2-16 producers, 1-6 channels, shards, pools, admission/backlog limits, coalescing, in-flight limit, post-commit sink, pipeline depth, fault rates, optional Stop instant) and every producer's batch plan are PRNG functions of (seed, case). Non-trivial = the run contained an in-batch duplicate key, a retry of a send whose earlier attempt was applied by the store but reported as failed (ambiguous), and at least two producers with applied records on one channel. Distinct = (mode, producers, channels, in-flight limit, stop kind, log2 buckets of duplicates / recoveries / conflicts / records).")
 	r.Assume("The store model reproduces the real storage contract: atomic batch, consecutive sequences, duplicate (FromUID, ClientMsgNo) rejects the whole batch with an ErrAppendFailed-class error, lookup compares the FNV-64a payload hash when the query carries one.")
 	r.Assume("Submission order between two sends is taken as defined only when they are in the same batch (same channel), or the earlier batch's SubmitLocal/SendBatch call returned before the later one was invoked (logical clock).")
 
-	nRuns := r.N(110, 1300)
+	nRuns := r.N(quick, thorough)
 	for i := 0; i < nRuns; i++ {
 		if r.Skip(i) {
 			continue
@@ -426,7 +433,12 @@ func (run *c29Run) execute(rng *rand.Rand) {
 	for c := 0; c < cfg.Channels; c++ {
 		run.chans = append(run.chans, ca.ChannelID{ID: fmt.Sprintf("c29r%dch%d", run.idx, c), Type: 2})
 	}
-	opts := ca.Options{LocalNodeID: 1, Appender: run.model, Idempotency: run.model, MessageID: &c29IDs{}, Authorizer: c29Auth{},
+	var appender ca.Appender = run.model
+	var idem ca.IdempotencyStore = run.model
+	if c29PortsHook != nil {
+		appender, idem = c29PortsHook(run.model)
+	}
+	opts := ca.Options{LocalNodeID: 1, Appender: appender, Idempotency: idem, MessageID: &c29IDs{}, Authorizer: c29Auth{},
 		AuthorityShardCount: cfg.Shards, AdvancePoolSize: cfg.Advance, EffectPoolSize: cfg.Effect,
 		AdmissionCapacityPerShard: cfg.AdmitCap, ChannelBacklogHighWatermark: cfg.Backlog, AppendInflightBatchesPerChannel: cfg.Inflight}
 	switch cfg.Coalesce {
